@@ -451,6 +451,43 @@ def twin_oracle(ops, out):
     return None
 
 
+def _bitfield_size(bits):
+    return bits.bit_length()
+
+
+def unsent_ack_oracle(ops, out):
+    """C15 on injected acknowledgement frames (`frame e acks fb pb ng (base bits nonce)*`): when every group of the
+    frame either has an empty bitfield or spans an id outside the sender's frame log [lbase, next), and the frame's
+    own window base equals the sender's current one (so that advancing the transfer window is a no-op), the
+    accumulated feedback (`ad`), the reorder buffer (`rb`) and the loss intervals (`li`) must not change: an
+    acknowledgement naming a frame that was never sent (or is no longer remembered) has no effect at all."""
+    last = {}
+    for (t, info, term) in events(ops, out):
+        st = parse_st(term) if term and term.startswith("st ") else None
+        try:
+            e = endpoint_of(t)
+        except (ValueError, IndexError):
+            e = None
+        if t[0] == "frame" and len(t) > 5 and t[2] == "acks" and st and e in last:
+            pre = last[e]
+            fb, ng = int(t[3]), int(t[5])
+            groups = [(int(t[6 + 3 * i]), int(t[7 + 3 * i])) for i in range(ng) if len(t) >= 9 + 3 * i]
+            def outside(base, bits):
+                n = _bitfield_size(bits)
+                if n == 0:
+                    return True
+                first = (base - pre["flbase"]) % U32
+                return first >= pre["fllen"] or first + n > pre["fllen"]
+            if groups and len(groups) == ng and fb == pre["fwbase"] and all(outside(b, m) for (b, m) in groups) and any(m for (_, m) in groups):
+                for fld, what in (("ad", "feedback accumulator"), ("rb", "reorder buffer"), ("li", "loss intervals"), ("rq", "resend queue length")):
+                    if st[fld] != pre[fld]:
+                        return ("endpoint %d: an acknowledgement frame whose groups all name frames outside the frame log [%d, +%d) "
+                                "changed the %s (%s -> %s)" % (e, pre["flbase"], pre["fllen"], what, pre[fld], st[fld]))
+        if st and e is not None:
+            last[e] = st
+    return None
+
+
 # ---------------------------------------------------------------- send rate (C14), rate mode
 
 import struct
@@ -564,6 +601,7 @@ def grammar_oracle(ops, out):
     """C08: per connection: Connect? Receive* (Disconnect|Error)?; nothing after the end; a new Connect for an
     address only after the previous connection's terminal event (or the application's own Server::drop)."""
     phase = {}   # key -> 'idle' | 'connected'
+    tracked = None   # addresses the server tracked (pending / active / closing) after its previous operation
     for (t, info, term) in ep_events(ops, out):
         who = None
         if t[0].startswith("srv"):
@@ -595,7 +633,17 @@ def grammar_oracle(ops, out):
                     return "%s: Disconnect for address %s without a preceding Connect" % (who, addr)
                 phase[key] = "ended" if who.startswith("C") else "idle"
             elif kind == "error":
+                if who == "S" and len(p) > 3 and p[3] == "timeout" and tracked is not None and addr not in tracked:
+                    return ("server reported Error(Timeout) for address %s which it was not tracking before this step "
+                            "(its previous connection had already ended)" % addr)
                 phase[key] = "ended" if who.startswith("C") else "idle"
+        if term and term.startswith("st clients="):
+            tracked = set()
+            for part in term.split()[4:]:
+                if "=" in part:
+                    k, v = part.split("=", 1)
+                    if k.isdigit() and v[:1] in "PAC":
+                        tracked.add(k)
     return None
 
 
@@ -691,6 +739,26 @@ def handshake_oracle(ops, out):
                         return "server reported Connect for address %s which never returned a nonce the server generated" % k
                     state_syn[k] = False
                     state_ack[k] = set()
+    return None
+
+
+def single_ack_nonce_oracle(ops, out):
+    """C07 (client side): a client acknowledges exactly one server nonce — the one of the SYN+ACK that established
+    its connection (duplicates of that SYN+ACK are answered with the same acknowledgement; a SYN+ACK carrying any
+    other server nonce is ignored). Hence all handshake-ACK datagrams one client ever emits are byte-identical."""
+    seen = {}
+    for (t, info, term) in ep_events(ops, out):
+        if t[0] == "clinew":
+            seen.pop(t[1], None)
+        if t[0] == "pfwd":
+            k = t[1]
+            for l in info:
+                p = l.split()
+                if len(p) >= 5 and p[0] == "dgram" and p[1] != "S" and p[4] == "a":
+                    ident = (p[2], p[3])
+                    if k in seen and seen[k] != ident:
+                        return "client %s acknowledged two different server nonces (handshake ACK datagrams %s and %s)" % (k, seen[k], ident)
+                    seen.setdefault(k, ident)
     return None
 
 
